@@ -643,6 +643,318 @@ fn erasedblk(rep: &mut Report) {
     rep.s("erasedblk", format!("cases={cases}"));
 }
 
+// ------------------------------------------------------------------------------------------------ reply, then the end, in one poll
+/// a handler answers an ask and ends its own actor (kill(), or stop() queued right behind) before the asker is polled
+/// again: the asker finds the reply AND a closed mailbox.  The reply wins, and a success records no dead letter.
+struct Rc2 {
+    log: Arc<Mutex<Vec<String>>>,
+}
+impl Actor for Rc2 {
+    type Args = Arc<Mutex<Vec<String>>>;
+    type Error = String;
+    async fn on_start(a: Self::Args, _: &ActorRef<Self>) -> Result<Self, String> {
+        Ok(Rc2 { log: a })
+    }
+}
+struct CloseBy(&'static str);
+impl Message<CloseBy> for Rc2 {
+    type Reply = u32;
+    async fn handle(&mut self, m: CloseBy, me: &ActorRef<Self>) -> u32 {
+        self.log.lock().unwrap().push(format!("h {}", m.0));
+        match m.0 {
+            "kill" => {
+                let _ = me.kill();
+            }
+            "stop" => {
+                let _ = me.stop().await;
+            }
+            _ => {}
+        }
+        7
+    }
+}
+
+fn replyclose(rep: &mut Report) {
+    harness::log::install();
+    let rt = tokio::runtime::Builder::new_current_thread().enable_time().build().unwrap();
+    let mut cases = 0u64;
+    rt.block_on(async {
+        for how in ["kill", "stop", "none"] {
+            for form in ["ask", "ask_with_timeout", "erased ask"] {
+                cases += 1;
+                note(format!("replyclose: {form}, the handler replies and ends its actor by {how} in the same poll"));
+                let log = Arc::new(Mutex::new(vec![]));
+                let (r, jh) = spawn_with_mailbox_capacity::<Rc2>(log.clone(), 4);
+                tokio::task::yield_now().await;
+                let before = harness::log::DEAD_LETTER_EVENTS.load(SeqCst);
+                let res = match form {
+                    "ask" => r.ask(CloseBy(how)).await,
+                    "ask_with_timeout" => r.ask_with_timeout(CloseBy(how), Duration::from_secs(2)).await,
+                    _ => {
+                        let ah: Box<dyn rsactor::AskHandler<CloseBy, u32>> = Box::new(r.clone());
+                        ah.ask(CloseBy(how)).await
+                    }
+                };
+                if how == "none" {
+                    let _ = r.kill();
+                }
+                let _ = tokio::time::timeout(Duration::from_secs(5), jh).await;
+                tokio::time::sleep(Duration::from_millis(10)).await;
+                let delta = harness::log::DEAD_LETTER_EVENTS.load(SeqCst) - before;
+                match res {
+                    Ok(7) => {
+                        if delta != 0 {
+                            rep.v("C13", format!("replyclose({form}, {how}): the ask returned Ok(7) - the handler had replied before its actor ended - and {delta} dead letter(s) were recorded for it (operations that succeed record none)"));
+                        }
+                    }
+                    other => rep.v("C03 C13", format!("replyclose({form}, {how}): the handler returned 7 and then ended its actor; the asker got {other:?} (a reply that was sent is delivered) with {delta} dead letter(s)")),
+                }
+            }
+        }
+        rep.s("replyclose", format!("cases={cases}"));
+    });
+}
+
+// ------------------------------------------------------------------------------------------------ panics in every hook
+/// a panic anywhere in the actor's own code - on_start, a handler, on_tell_result, on_run, on_stop - ends that actor:
+/// its JoinHandle reports the panic, on_stop does not run afterwards, nothing queued behind it is handled, later
+/// sends fail
+struct Hp {
+    log: Arc<Mutex<Vec<String>>>,
+    at: &'static str,
+}
+impl Actor for Hp {
+    type Args = (Arc<Mutex<Vec<String>>>, &'static str);
+    type Error = String;
+    async fn on_start(a: Self::Args, _: &ActorRef<Self>) -> Result<Self, String> {
+        if a.1 == "on_start" {
+            panic!("scripted panic in on_start");
+        }
+        Ok(Hp { log: a.0, at: a.1 })
+    }
+    async fn on_run(&mut self, _: &ActorWeak<Self>) -> Result<bool, String> {
+        if self.at == "on_run" {
+            tokio::time::sleep(Duration::from_millis(5)).await;
+            self.log.lock().unwrap().push("run".into());
+            panic!("scripted panic in on_run");
+        }
+        Ok(false)
+    }
+    async fn on_stop(&mut self, _: &ActorWeak<Self>, killed: bool) -> Result<(), String> {
+        self.log.lock().unwrap().push(format!("stop {killed}"));
+        if self.at == "on_stop" {
+            panic!("scripted panic in on_stop");
+        }
+        Ok(())
+    }
+}
+struct Pm(u32);
+impl Message<Pm> for Hp {
+    type Reply = u32;
+    async fn handle(&mut self, m: Pm, _: &ActorRef<Self>) -> u32 {
+        self.log.lock().unwrap().push(format!("h {}", m.0));
+        if self.at == "handler" && m.0 == 666 {
+            panic!("scripted panic in a handler");
+        }
+        m.0
+    }
+    fn on_tell_result(result: &u32, _: &ActorRef<Self>) {
+        if *result == 777 {
+            panic!("scripted panic in on_tell_result");
+        }
+    }
+}
+
+fn hookpanic(rep: &mut Report) {
+    let rt = tokio::runtime::Builder::new_current_thread().enable_time().build().unwrap();
+    let mut cases = 0u64;
+    rt.block_on(async {
+        for at in ["on_start", "handler", "on_tell_result", "on_run", "on_stop"] {
+            for end in ["stop", "drop", "kill"] {
+                cases += 1;
+                note(format!("hookpanic: panic in {at}; afterwards the references are used for {end}"));
+                let log = Arc::new(Mutex::new(vec![]));
+                let (r, jh) = spawn_with_mailbox_capacity::<Hp>((log.clone(), at), 8);
+                match at {
+                    "handler" => {
+                        let _ = r.tell(Pm(1)).await;
+                        let _ = r.tell(Pm(666)).await;
+                        let _ = r.tell(Pm(2)).await;
+                    }
+                    "on_tell_result" => {
+                        let _ = r.tell(Pm(1)).await;
+                        let _ = r.tell(Pm(777)).await;
+                        let _ = r.tell(Pm(2)).await;
+                    }
+                    _ => {}
+                }
+                // let the panic happen (on_stop panics only once the actor is being ended)
+                tokio::time::sleep(Duration::from_millis(25)).await;
+                let stops_before = log.lock().unwrap().iter().filter(|x| x.starts_with("stop")).count();
+                let later = r.tell(Pm(3)).await;
+                match end {
+                    "stop" => {
+                        let _ = tokio::time::timeout(Duration::from_secs(2), r.stop()).await;
+                    }
+                    "kill" => {
+                        let _ = r.kill();
+                    }
+                    _ => {}
+                }
+                drop(r);
+                let res = tokio::time::timeout(Duration::from_secs(5), jh).await;
+                let l = log.lock().unwrap().clone();
+                let what = format!("hookpanic(panic in {at}, then {end})");
+                match res {
+                    Ok(Err(e)) if e.is_panic() => {}
+                    Ok(Err(_)) => rep.v("C12 C05", format!("{what}: the JoinHandle reports a cancelled task, not the panic")),
+                    Ok(Ok(_)) => rep.v("C12 C04", format!("{what}: a hook panicked, yet the JoinHandle yields an ActorResult instead of reporting the panic (the actor survived its own panic); log {l:?}")),
+                    Err(_) => rep.v("C12 C07", format!("{what}: the actor did not end within 5 s; log {l:?}")),
+                }
+                let stops = l.iter().filter(|x| x.starts_with("stop")).count();
+                if at != "on_stop" && stops > 0 {
+                    rep.v("C04 C12", format!("{what}: on_stop ran although a hook had panicked (on_stop is not run after a panic); log {l:?}"));
+                }
+                if at == "on_stop" && stops != 1 {
+                    rep.v("C04", format!("{what}: on_stop must run exactly once; log {l:?}"));
+                }
+                if (at == "handler" || at == "on_tell_result") && (l.iter().any(|x| x == "h 2") || l.iter().any(|x| x == "h 3")) {
+                    rep.v("C12 C04", format!("{what}: messages queued behind the one whose hook panicked were handled; log {l:?}"));
+                }
+                if at != "on_stop" && at != "on_run" && later.is_ok() && at != "on_start" {
+                    rep.v("C12 C03", format!("{what}: a tell issued 25 ms after the panic returned Ok"));
+                }
+                let _ = stops_before;
+            }
+        }
+        rep.s("hookpanic", format!("cases={cases}"));
+    });
+}
+
+// ------------------------------------------------------------------------------------------------ the last reference lives in the work itself
+/// self-continuation: the spawner tells once and drops its handle; each handler tells its own actor the next step (or
+/// hands a clone of its reference to a task that does, or upgrades a weak handle).  The chain is accepted work: every
+/// step is handled, then - and only then - the unreferenced actor ends with on_stop(killed=false).
+/// Also: an actor nobody refers to ends at once, whatever its on_run is doing, and weak handles say so.
+struct Sc {
+    log: Arc<Mutex<Vec<String>>>,
+    mode: &'static str,
+    quiet: Arc<tokio::sync::Notify>,
+    weak: Option<ActorWeak<Sc>>,
+}
+impl Actor for Sc {
+    type Args = (Arc<Mutex<Vec<String>>>, &'static str);
+    type Error = String;
+    async fn on_start(a: Self::Args, me: &ActorRef<Self>) -> Result<Self, String> {
+        Ok(Sc { log: a.0, mode: a.1, quiet: Arc::new(tokio::sync::Notify::new()), weak: Some(ActorRef::downgrade(me)) })
+    }
+    async fn on_run(&mut self, _: &ActorWeak<Self>) -> Result<bool, String> {
+        if self.mode == "parked-run" {
+            self.quiet.notified().await;
+            return Ok(true);
+        }
+        Ok(false)
+    }
+    async fn on_stop(&mut self, _: &ActorWeak<Self>, killed: bool) -> Result<(), String> {
+        self.log.lock().unwrap().push(format!("stop {killed}"));
+        Ok(())
+    }
+}
+struct Tick(u32);
+impl Message<Tick> for Sc {
+    type Reply = ();
+    async fn handle(&mut self, m: Tick, me: &ActorRef<Self>) {
+        self.log.lock().unwrap().push(format!("tick {}", m.0));
+        if m.0 == 0 {
+            return;
+        }
+        match self.mode {
+            "task" => {
+                let r = me.clone();
+                tokio::spawn(async move {
+                    tokio::task::yield_now().await;
+                    let _ = r.tell(Tick(m.0 - 1)).await;
+                });
+            }
+            "upgrade" => {
+                if let Some(r) = self.weak.as_ref().and_then(ActorWeak::upgrade) {
+                    let _ = r.tell(Tick(m.0 - 1)).await;
+                }
+            }
+            _ => {
+                let _ = me.tell(Tick(m.0 - 1)).await;
+            }
+        }
+    }
+}
+
+fn selfchain(rep: &mut Report) {
+    let rt = tokio::runtime::Builder::new_current_thread().enable_time().build().unwrap();
+    let mut cases = 0u64;
+    rt.block_on(async {
+        for mode in ["self-tell", "task", "upgrade", "parked-run"] {
+            for cap in [1usize, 4] {
+                cases += 1;
+                note(format!("selfchain: {mode}, capacity {cap}: tell Tick(4), drop the only handle"));
+                let log = Arc::new(Mutex::new(vec![]));
+                let (r, jh) = spawn_with_mailbox_capacity::<Sc>((log.clone(), mode), cap);
+                let weak = ActorRef::downgrade(&r);
+                let sent = r.tell(Tick(4)).await;
+                drop(r);
+                let res = tokio::time::timeout(Duration::from_secs(5), jh).await;
+                let l = log.lock().unwrap().clone();
+                let want: Vec<String> = (0..=4).rev().map(|k| format!("tick {k}")).chain(std::iter::once("stop false".to_string())).collect();
+                let what = format!("selfchain({mode}, capacity {cap})");
+                match res {
+                    Ok(Ok(out)) => {
+                        if sent.is_err() || l != want {
+                            rep.v("C01 C07", format!("{what}: the spawner told Tick(4) and dropped its handle; each handler passes the next step to its own actor before it returns, so the steps are accepted work and the actor is referenced until the last one is handled: expected {want:?}, got {l:?}"));
+                        }
+                        if !out.is_completed() || out.was_killed() {
+                            rep.v("C05 C07", format!("{what}: the actor must end as completed, not killed"));
+                        }
+                    }
+                    _ => rep.v("C07 C01", format!("{what}: the actor did not end within 5 s of becoming unreferenced; log {l:?}")),
+                }
+                if ActorWeak::upgrade(&weak).is_some() || weak.is_alive() {
+                    rep.v("C11", format!("{what}: the actor has ended; a weak handle still upgrades or says alive"));
+                }
+            }
+        }
+        // nobody ever refers to it: dropped before the actor's task has run, or right after on_start
+        for mode in ["default-run", "parked-run"] {
+            for when in ["before it runs", "after on_start"] {
+                cases += 1;
+                note(format!("selfchain: unreferenced actor ({mode}), handle dropped {when}"));
+                let log = Arc::new(Mutex::new(vec![]));
+                let (r, jh) = spawn_with_mailbox_capacity::<Sc>((log.clone(), mode), 4);
+                let weak = ActorRef::downgrade(&r);
+                if when == "after on_start" {
+                    tokio::task::yield_now().await;
+                }
+                drop(r);
+                // let the actor's task notice (a few polls)
+                for _ in 0..5 {
+                    tokio::task::yield_now().await;
+                }
+                let up = ActorWeak::upgrade(&weak).is_some();
+                let alive = weak.is_alive();
+                if up || alive {
+                    rep.v("C11 C07", format!("an actor ({mode}) whose only handle was dropped {when}, no message ever sent: after the actor's task has been polled several times a weak handle gives upgrade() = {up}, is_alive() = {alive} (no strong reference exists anywhere: both must be false)"));
+                }
+                let res = tokio::time::timeout(Duration::from_secs(5), jh).await;
+                let l = log.lock().unwrap().clone();
+                match res {
+                    Ok(Ok(out)) if out.is_completed() && !out.was_killed() && l == vec!["stop false".to_string()] => {}
+                    Ok(Ok(_)) => rep.v("C07 C04", format!("an unreferenced actor ({mode}, handle dropped {when}) must end as completed after on_stop(killed=false); log {l:?}")),
+                    _ => rep.v("C07", format!("an unreferenced actor ({mode}, handle dropped {when}) did not end within 5 s; log {l:?}")),
+                }
+            }
+        }
+        rep.s("selfchain", format!("cases={cases}"));
+    });
+}
+
 // ------------------------------------------------------------------------------------------------ late completion (real time)
 struct G {
     log: Arc<Mutex<Vec<u32>>>,
@@ -1894,6 +2206,9 @@ fn main() {
             "late" => ("C01 C10", 360),
             "cancel" => ("C02 C01 C09 C07 C08", 240),
             "backlog" => ("C01 C02 C04 C07 C08", 600),
+            "replyclose" => ("C13 C03", 120),
+            "hookpanic" => ("C04 C12 C05", 240),
+            "selfchain" => ("C01 C07 C11 C05", 240),
             "erasedblk" => ("C16 C17", 600),
             "blocking" => ("C17 C10 C03", 720),
             "ids" => ("C11", 120),
@@ -1919,6 +2234,9 @@ fn main() {
                     "late" => late(&mut r),
                     "cancel" => cancel(&mut r),
                     "backlog" => backlog(&mut r),
+                    "replyclose" => replyclose(&mut r),
+                    "hookpanic" => hookpanic(&mut r),
+                    "selfchain" => selfchain(&mut r),
                     "erasedblk" => erasedblk(&mut r),
                     "blocking" => blocking(&mut r),
                     "ids" => ids(&mut r),
